@@ -13,6 +13,7 @@ import (
 
 	"github.com/btcsuite/btcd/blockchain"
 	"github.com/btcsuite/btcd/btcutil/v2"
+	"github.com/btcsuite/btcd/chaincfg/v2"
 	"github.com/btcsuite/btcd/wire/v2"
 )
 
@@ -211,7 +212,7 @@ func (dv *driver) cve() {
 
 func runCase(k *mon.Case) {
 	r := k.Rand
-	fam := []string{node.FamRegtest, node.FamRegtest, node.FamVarWork, "halving", "gates", "gates", "bip94"}[r.Intn(7)]
+	fam := []string{node.FamRegtest, node.FamRegtest, node.FamVarWork, "halving", "gates", "gates", "bip94", "gates-taproot"}[r.Intn(8)]
 	var p = node.NewParams(node.FamRegtest)
 	gfam := node.FamRegtest
 	var gt *gates
@@ -228,6 +229,11 @@ func runCase(k *mon.Case) {
 		hs := r.Perm(14)
 		gt = &gates{bip34: int32(16 + hs[0]), bip66: int32(16 + hs[1]), bip65: int32(16 + hs[2]), csv: int32(16 + hs[3])}
 		gatesParams(p, *gt)
+	case "gates-taproot":
+		// everything active from the start except taproot, which becomes active at a height shortly above the base chain
+		gt = &gates{bip34: 1, bip66: 1, bip65: 1, csv: 1, taproot: int32(16 + r.Intn(14))}
+		p.Name = "verif-gates-taproot"
+		p.Deployments[chaincfg.DeploymentTaproot].AlwaysActiveHeight = uint32(gt.taproot)
 	case "bip94":
 		p = node.NewParams(node.FamRetarget)
 		p.EnforceBIP94 = true
@@ -249,7 +255,7 @@ func runCase(k *mon.Case) {
 	if fam == "halving" {
 		base = 18
 	}
-	if fam == "gates" {
+	if fam == "gates" || fam == "gates-taproot" {
 		base = 10 + r.Intn(5)
 	}
 	tip := g.Tree.Genesis
@@ -263,6 +269,9 @@ func runCase(k *mon.Case) {
 	case "gates":
 		rs = gatesCatalogue()
 		n = 70
+	case "gates-taproot":
+		rs = taprootGateCatalogue()
+		n = 50
 	case "bip94":
 		rs = append(rs, timewarpCatalogue()...)
 		n = 16 + r.Intn(8)
@@ -287,8 +296,8 @@ func runCase(k *mon.Case) {
 			if s.Tip.Height == 19 {
 				rc = byName("coinbase:pre-halving-subsidy")
 			}
-		case "gates":
-			if next > max(gt.bip34, gt.bip66, gt.bip65, gt.csv)+2 {
+		case "gates", "gates-taproot":
+			if next > max(gt.bip34, gt.bip66, gt.bip65, gt.csv, gt.taproot)+2 {
 				i = n
 				continue
 			}
@@ -321,7 +330,7 @@ func runCase(k *mon.Case) {
 			dv.cve()
 		}
 		// keep the chain growing with ordinary blocks so that coins mature and later candidates have material
-		if r.Chance(1, 2) && !(fam == "gates" && r.Chance(2, 3)) {
+		if r.Chance(1, 2) && !((fam == "gates" || fam == "gates-taproot") && r.Chance(2, 3)) {
 			nb := g.Block(r, s.Tip, chaingen.BlockOpts{NTx: -1, Easy: r.Bool()})
 			s.DeliverBlock(nb)
 		}
@@ -346,7 +355,7 @@ func main() {
 			}
 			c.Require("rule."+rc.name+"."+pol, 3)
 		}
-		for _, rc := range gatesCatalogue() {
+		for _, rc := range append(gatesCatalogue(), taprootGateCatalogue()...) {
 			if rc.gate != nil {
 				// a height-gated rule must have been probed on both sides of its activation height
 				c.Require("gate."+rc.name+".last-before", 3)
